@@ -834,6 +834,12 @@ class ExcludeRegionState(object):  # pylint: disable=too-many-instance-attribute
             "G92 E{e}".format(e=self.position.E_AXIS.nativeToLogical())
         )
 
+        relativeMode = not self.position.X_AXIS.absoluteMode
+        if (relativeMode):
+            # The generated moves use absolute coordinates, so temporarily switch to absolute
+            # positioning when the file is currently using relative positioning
+            returnCommands.append("G90")
+
         newZ = self.position.Z_AXIS.nativeToLogical()
 
         # Compare the native positions, as the units or offsets of the logical coordinates may
@@ -864,6 +870,9 @@ class ExcludeRegionState(object):  # pylint: disable=too-many-instance-attribute
             # Move Z axis _down_ to new position
             # (hopefully we avoided hitting any part we may pass over)
             returnCommands.append(moveZcmd)
+
+        if (relativeMode):
+            returnCommands.append("G91")
 
         self._logger.info(
             "STOP excluding: cmd=%s, returnCommands=%s, numCommands=%s, numExcludedCommands=%s, " +
